@@ -84,9 +84,14 @@ func TestC06(t *testing.T) {
 	for i := 0; i < r.Pick(12, 300); i++ {
 		cases = append(cases, mon.CaseSpec{Name: "pub-churn", Spec: spec{Mode: "pubchurn", NSub: rnd.Intn(4), RawPub: i%2 == 0, Steps: rnd.Intn(10)}})
 	}
+	for i := 0; i < r.Pick(40, 1500); i++ {
+		cases = append(cases, mon.CaseSpec{Name: "pub-resize", Spec: spec{Mode: "pubresize", NSub: rnd.Intn(3), RawPub: i%2 == 0, WQ: []int{0, 1, 2, 8}[rnd.Intn(4)], Steps: rnd.Intn(8)}})
+	}
 	r.Run(cases, func(c *mon.Case) {
 		sp := c.Spec.(spec)
 		switch sp.Mode {
+		case "pubresize":
+			runPubResize(c, sp)
 		case "stalled":
 			runStalledPeer(c, sp)
 		case "pubchurn":
